@@ -51,6 +51,8 @@ impl RocksDBTransaction {
 
     /// Commit the transaction.
     pub fn commit(&self) -> Result<()> {
+        #[cfg(feature = "verif-hooks")]
+        let _verif = crate::verif_hook::CommitGuard::new("txn-commit");
         self.inner.commit().map_err(internal_error)
     }
 
